@@ -783,7 +783,7 @@ def unResult : UnOp → Cls → Option Cls
   | .copy, c => some c | .rename, c => some c
   | .toSS, .ss => some .ss | .toSS, .tf => some .ss
   | .toTF, .ss => some .tf | .toTF, .tf => some .tf
-  | .toFRD, .ss => some .frd | .toFRD, .tf => some .frd
+  | .toFRD, .ss => some .frd | .toFRD, .tf => some .frd | .toFRD, .frd => some .frd
   | .toNL, .ss => some .nl
   | .similarity, .ss => some .ss | .reachable, .ss => some .ss | .observable, .ss => some .ss
   | .modelReduction, .ss => some .ss
